@@ -122,6 +122,10 @@ let judge_arith (lhs : string list) (rhs : string list) (line : string) =
       | "C02" -> corr_full k o @ oracle_c02_arith k o
       | "C07" -> corr_full k o @ oracle_c07 k o
       | "C19" -> corr_full k o @ (if opn = "Reduce" then oracle_ctx_reduce k o else [])
+      | "C08" -> corr_full k o @ oracle_c08 k o
+      | "C09" -> corr_full k o @ oracle_c09 k o
+      | "C10" -> corr_full k o @ oracle_c10 k o
+      | "C15" -> corr_full k o @ oracle_c15_ctx k o
       | p -> failwith ("no arith judge for " ^ p) in
     report line codes
   | _ -> report line [z_of_int 99]
@@ -135,6 +139,11 @@ let judge_line (line : string) =
   | ["nd"; b], [n] ->
       Hashtbl.replace nontrivial b ();
       report line (judge_numdigits (z_of_hex b) (z_of_dec_string n))
+  | ["cm"; a; b; c], [cab; cbc; cac; tab; tba; tbc; tac; taa] ->
+      let zi = z_of_dec_string in
+      if cab <> "0" || tab <> "0" then Hashtbl.replace nontrivial (String.concat " " lhs) ();
+      bump opcount "CmpTriple";
+      report line (judge_cmp (dec_req a) (dec_req b) (dec_req c) (zi cab) (zi cbc) (zi cac) (zi tab) (zi tba) (zi tbc) (zi tac) (zi taa))
   | ["dr"; x; dpre; al], [d; n; xpost] ->
       if n <> "0" then Hashtbl.replace nontrivial x ();
       report line (judge_dec_reduce (dec_req x) (dec_req dpre) (al = "dx") (dec_req d) (z_of_dec_string n) (dec_of_token xpost))
